@@ -29,8 +29,8 @@ ASSUMPTIONS = [
     "the voxel corners (global_corners_voxels) are the authoritative advertisement; physical corners must be their image under the base coordinate system",
 ]
 FLOORS = {
-    "quick": {"caller_goes_on_working": 300, "integer_typed_geometry": 300, "patch_content_replaced": 150, "base_converted_before_patching": 400, "patched_again_after_move": 400, "assemble_equals_base": 1500, "interiors_partition": 1500, "patch_is_advertised_subimage": 12000, "corners_voxel_vs_physical": 12000},
-    "thorough": {"caller_goes_on_working": 3000, "integer_typed_geometry": 3000, "patch_content_replaced": 1500, "base_converted_before_patching": 4000, "patched_again_after_move": 4000, "assemble_equals_base": 15000, "interiors_partition": 15000, "patch_is_advertised_subimage": 100000, "corners_voxel_vs_physical": 50000},
+    "quick": {"empty_trailing_patches_judged": 500, "caller_goes_on_working": 300, "integer_typed_geometry": 300, "patch_content_replaced": 150, "base_converted_before_patching": 400, "patched_again_after_move": 400, "assemble_equals_base": 1500, "interiors_partition": 1500, "patch_is_advertised_subimage": 12000, "corners_voxel_vs_physical": 12000},
+    "thorough": {"empty_trailing_patches_judged": 1000, "caller_goes_on_working": 3000, "integer_typed_geometry": 3000, "patch_content_replaced": 1500, "base_converted_before_patching": 4000, "patched_again_after_move": 4000, "assemble_equals_base": 15000, "interiors_partition": 15000, "patch_is_advertised_subimage": 100000, "corners_voxel_vs_physical": 50000},
 }
 OVERLAPS = [0.0, 0.1, 0.25, 0.5]
 
@@ -57,6 +57,19 @@ def judge_patches(R, P, case):
     # ---- interiors partition the index set
     cover = np.zeros((H, W), dtype=int)
     sub_ok = True
+    if case.get("reduced"):
+        good_r, first_r = True, None
+        for i in range(n0):
+            for j in range(n1):
+                gc = np.asarray(P.global_corners_voxels[i, j])
+                rel = P.relative_rois_without_overlap[i][j]
+                inner = P(i, j).img[rel]
+                blk = base.img[max(int(gc[0][0]), 0) : max(int(gc[1][0]), 0), max(int(gc[0][1]), 0) : max(int(gc[3][1]), 0)]
+                if inner.size != blk.size or (inner.size and not np.array_equal(inner, blk)):
+                    good_r, first_r = False, first_r or {"patch": [i, j], "advertised": gc.tolist(), "interior_shape": list(inner.shape), "block_shape": list(blk.shape)}
+        R.check(good_r, "patch_is_advertised_subimage", lambda: {**case, "what": "configuration with empty trailing patches: advertised box vs interior", "first": first_r}, group="empty_trailing_patches")
+        R.count("empty_trailing_patches_judged")
+        return
     place_ok = True
     vs_ok = True
     adv_ok = True
@@ -199,6 +212,19 @@ def run_shard(spec, R):
         for ci, cnt in enumerate(counts):
             if not (buildable(shape[0], cnt[0]) and buildable(shape[1], cnt[1])):
                 R.skip("unsupported:empty_patch")
+                # the library builds such objects nevertheless (trailing patches are empty); of the property only the
+                # clause that needs no buildability is judged: whatever box a patch advertises holds the patch's interior
+                if (si + ci) % 3 == 0:
+                    import contextlib
+                    import io
+
+                    arr_u = rng.integers(0, 255, size=shape, dtype=np.uint8)
+                    cur.clear()
+                    cur.update({"shape": list(shape), "counts": list(cnt), "rel_overlap": 0.0, "reduced": True})
+                    with contextlib.redirect_stdout(io.StringIO()):
+                        R.guarded("patches_with_empty_trailing_patches", lambda: darsia.Patches(darsia.Image(arr_u, space_dim=2, dimensions=[float(shape[0]), float(shape[1])], scalar=True), list(cnt)),
+                                  unsupported=(Exception,))
+                    cur.clear()
                 continue
             for ov in (OVERLAPS if spec["max"] > 12 and max(shape) <= 16 else [OVERLAPS[(case_no + ci + spec["seed"]) % 4]]):
               case_no += 1
